@@ -19,7 +19,7 @@
 From Coq Require Import ZArith List Bool Lia Permutation.
 From Verif Require Jit.JitModel Jit.JitProofs.
 From Verif Require Import OomTxn.OracleModel OomTxn.OracleProofs OomTxn.JitJointModel OomTxn.JitJointProofs.
-From VerifGen Require Import C15Tables.
+From VerifGen Require Import C15Tables C15Consts.
 Import ListNotations.
 Local Open Scope Z_scope.
 
@@ -386,3 +386,285 @@ Theorem C15_jit_alloc_joint :
         vs_views s' = vs_views s /\ vs_heap s' = vs_heap s)).
 Proof. exact jit_alloc_joint. Qed.
 Print Assumptions C15_jit_alloc_joint.
+
+(* =========================================================================================================== round 5 *)
+
+(* The constants the model hard-wires (small-string capacity, String minimum allocation, reusable-slot sizes, vector growth
+   rule table, growth threshold, number of constant-pool trees, relocation type numbers) are re-read from the source on every run
+   (VerifGen.C15Consts) and the MODEL computes with exactly these values. *)
+Theorem C15_consts_from_source : c15_consts_ok = true.
+Proof. exact c15_consts_ok_true. Qed.
+Print Assumptions C15_consts_from_source.
+
+(* ArenaHash, whole scripts under any oracle: the keys in the table are, as a multiset, exactly what the operations that reported
+   success build from the initial keys - failed node allocations leave no trace, failed rehashes change nothing observable. *)
+Theorem C15_hash_run_keys :
+  forall (ok : nat -> bool) (ops : list hop) (h : hash) (k : nat) (rs : list result) (h' : hash) (k' : nat),
+    hash_inv h -> hash_run ok hash_primes ops h k = (rs, h', k') ->
+    Permutation (hash_keys h') (hash_replay ops rs (hash_keys h)).
+Proof. exact (fun ok => hash_run_keys ok hash_primes (primes_pos_of_forallb hash_primes hash_primes_positive)). Qed.
+Print Assumptions C15_hash_run_keys.
+
+Example C15_hash_run_keys_nonvacuous :
+  let '(rs, h', _) := hash_run (fun k => negb (k =? 1)%nat) hash_primes [HInsert 5; HInsert 6; HInsert 7; HRemove 5] hash_empty 0%nat in
+  rs = [Ok; Oom; Ok; Ok] /\ hash_keys h' = [7].
+Proof. vm_compute. split; reflexivity. Qed.
+
+(* VirtMem views / JitAllocator block records, accounting over whole runs, every pair of oracles: the live views are exactly the
+   views of the handles that have not been released, each once (nothing leaked, nothing lost, nothing counted twice) ... *)
+Theorem C15_vm_step_acct :
+  forall (okv okh : nat -> bool) (op : vmop) (s : vms) (kv kh : nat) (r : result) (s' : vms) (kv' kh' : nat),
+    vms_acct s -> vm_step okv okh op s kv kh = (r, s', kv', kh') -> vms_acct s'.
+Proof. exact vm_step_acct. Qed.
+Print Assumptions C15_vm_step_acct.
+
+(* ... so after any script from the empty state, once every handle is released (or never existed) no view is left. *)
+Theorem C15_vm_run_all_released :
+  forall (okv okh : nat -> bool) (ops : list vmop) (rs : list result) (s' : vms) (kv' kh' : nat),
+    vm_run okv okh ops vms_init 0%nat 0%nat = (rs, s', kv', kh') ->
+    Forall (fun h => h = None) (vs_handles s') -> vs_views s' = [].
+Proof. exact vm_run_all_released. Qed.
+Print Assumptions C15_vm_run_all_released.
+
+Example C15_vm_run_nonvacuous :
+  let '(rs, s', _, _) := vm_run (fun k => negb (k =? 2)%nat) (fun _ => true) [VDual; VDual; VBlock true; VRel 0; VDel 2] vms_init 0%nat 0%nat in
+  rs = [Ok; Oom; Ok; Ok; Ok] /\ vs_views s' = [] /\ vs_heap s' = 0%nat.
+Proof. vm_compute. repeat split; reflexivity. Qed.
+
+(* JitAllocator::release = C09's span bookkeeping x C15's block deletion: release never asks for memory; both invariants are
+   kept; the views change only when C09's model says the block was deleted, then exactly by the views of that block's handle. *)
+Theorem C15_jit_release_joint :
+  forall (okv okh : nat -> bool) (bm : list (Z * nat)) (c : JitModel.config) (st : JitModel.state) (s : vms) (id off : Z) (kv kh : nat)
+         (st' : JitModel.state) (r : JitModel.result) (s' : vms),
+    JitProofs.cfg_ok c -> JitProofs.ginv c st -> JitProofs.valid_ptr c st id off -> vms_acct s ->
+    jit_release okv okh bm c st s id off kv kh = (st', r, s') ->
+    JitProofs.ginv c st' /\ vms_acct s' /\ (st', r) = JitModel.release c st id off /\
+    (vs_views s' = vs_views s /\ vs_heap s' = vs_heap s \/
+     exists bid h ids, r = JitModel.RRelease JitModel.Ok bid true /\ nth h (vs_handles s) None = Some ids /\
+                       vs_views s' = remove_ids ids (vs_views s) /\ vs_heap s' = pred (vs_heap s)).
+Proof. exact jit_release_joint. Qed.
+Print Assumptions C15_jit_release_joint.
+
+(* non-vacuity of the hypotheses used above and in earlier rounds *)
+Example C15_ra_inv_satisfiable : ra_inv (ras_init 8).
+Proof. split; [constructor|]. split; [intros w; unfold has_home, ras_init; cbn [ra_home ra_slots]; split; [|intros []] | intros w []].
+  intros H. destruct (le_lt_dec 8 w); [rewrite nth_overflow in H by (rewrite repeat_length; lia); discriminate |].
+  rewrite nth_repeat in H. discriminate. Qed.
+
+Example C15_holder2_step_nonvacuous :
+  let '(r, h, _) := holder2_step all_ok true (CCallAbs 4096) holder2_init 0%nat in
+  r = Ok /\ ho_relocs (h2_base h) = [6] /\ ss_entries (h2_sects h) = [4096] /\ ss_addrtab (h2_sects h) = Some 1%nat.
+Proof. vm_compute. repeat split; reflexivity. Qed.
+
+Example C15_builder_step_nonvacuous :
+  let '(r, _, b, _) := builder_step all_ok (BSection 0) holder2_init (add_node NInst (add_node NInst bld_init)) 0%nat in
+  r = Ok /\ b_cursor b = 2%nat.
+Proof. vm_compute. split; reflexivity. Qed.
+
+Example C15_jit_joint_config_satisfiable :
+  JitProofs.cfg_ok (JitModel.mkConfig 64 1 65536 true false JitModel.fixed) /\
+  JitProofs.ginv (JitModel.mkConfig 64 1 65536 true false JitModel.fixed) (JitModel.init_state (JitModel.mkConfig 64 1 65536 true false JitModel.fixed)).
+Proof.
+  assert (C : JitProofs.cfg_ok (JitModel.mkConfig 64 1 65536 true false JitModel.fixed)) by (constructor; cbn; lia || reflexivity).
+  split; [exact C | exact (JitProofs.ginv_init _ C)].
+Qed.
+
+(* An operation that reports success under ANY oracle is - state and request counter included - the step the failure-free run
+   makes (String, the combined holder state, VirtMem/JitAllocator blocks; vectors and the round-1 holder operations: see
+   C15_vec_ok_is_failure_free / C15_holder_ok_is_failure_free).  Hash and ConstPool deliberately do not have this property
+   (absorbed rehash / gap failures; C15_pool_add_ok_not_failure_free_refuted). *)
+Theorem C15_str_ok_is_failure_free :
+  forall (ok : nat -> bool) (op : sop) (s : str) (k : nat) (s' : str) (k' : nat),
+    str_step ok op s k = (Ok, s', k') -> str_step all_ok op s k = (Ok, s', k').
+Proof. exact str_step_ok_failure_free. Qed.
+Print Assumptions C15_str_ok_is_failure_free.
+
+Theorem C15_holder2_ok_is_failure_free :
+  forall (ok : nat -> bool) (op : cop2) (h : holder2) (k : nat) (h' : holder2) (k' : nat),
+    holder2_step ok true op h k = (Ok, h', k') -> holder2_step all_ok true op h k = (Ok, h', k').
+Proof. exact holder2_step_ok_failure_free. Qed.
+Print Assumptions C15_holder2_ok_is_failure_free.
+
+Theorem C15_vm_ok_is_failure_free :
+  forall (okv okh : nat -> bool) (op : vmop) (s : vms) (kv kh : nat) (s' : vms) (kv' kh' : nat),
+    vm_step okv okh op s kv kh = (Ok, s', kv', kh') -> vm_step all_ok all_ok op s kv kh = (Ok, s', kv', kh').
+Proof. exact vm_step_ok_failure_free. Qed.
+Print Assumptions C15_vm_ok_is_failure_free.
+
+Example C15_ok_is_failure_free_nonvacuous :
+  str_step (fun k => negb (k =? 1)%nat) (SAppendChars 40) str_empty 0%nat = str_step all_ok (SAppendChars 40) str_empty 0%nat /\
+  fst (fst (str_step (fun _ => false) (SAppendChars 40) str_empty 0%nat)) = Oom.
+Proof. vm_compute. split; reflexivity. Qed.
+
+(* String, whole scripts under any heap oracle: the final characters are what the oracle-free specification gives for exactly the
+   operations that reported success; the invariant holds at the end; no operation is ever "invalid"; at most one malloc each. *)
+Theorem C15_str_run_failed_ops_vanish :
+  forall (ok : nat -> bool) (ops : list sop) (s : str) (k : nat) (rs : list result) (s' : str) (k' : nat),
+    Forall sop_wf ops -> str_inv s -> str_run ok ops s k = (rs, s', k') ->
+    st_chars s' = str_replay ops rs (st_chars s) /\ str_inv s' /\ length rs = length ops /\ ~ In Invalid rs /\ (k <= k' <= k + length ops)%nat.
+Proof. exact str_run_failed_ops_vanish. Qed.
+Print Assumptions C15_str_run_failed_ops_vanish.
+
+Example C15_str_run_nonvacuous :
+  let '(rs, s', k') := str_run (fun k => negb (k =? 0)%nat) [SAppendChars 40; SAppendChars 3; SAppendChars 40] str_empty 0%nat in
+  rs = [Oom; Ok; Ok] /\ length (st_chars s') = 43%nat /\ k' = 2%nat.
+Proof. vm_compute. repeat split; reflexivity. Qed.
+
+(* Builder, whole scripts under any oracle: node list, cursor and bound labels at the end are what the oracle-free specification
+   gives for exactly the operations that reported success; the holder's sections are never touched by Builder operations. *)
+Theorem C15_builder_run_failed_ops_vanish :
+  forall (ok : nat -> bool) (ops : list bop) (h : holder2) (b : bld) (k : nat) (rs : list result) (h' : holder2) (b' : bld) (k' : nat),
+    builder_run ok ops h b k = (rs, h', b', k') ->
+    bld_list b' = bld_replay ops rs (bld_list b) /\ h2_sects h' = h2_sects h /\ length rs = length ops.
+Proof. exact builder_run_failed_ops_vanish. Qed.
+Print Assumptions C15_builder_run_failed_ops_vanish.
+
+Example C15_builder_run_nonvacuous :
+  let '(rs, _, b', _) := builder_run (fun k => negb (k =? 1)%nat) [BInst; BAlign; BComment; BCursor 0; BEmbed] holder2_init bld_init 0%nat in
+  rs = [Ok; Oom; Ok; Ok; Ok] /\ b_nodes b' = [NSection 0; NEmbed; NInst; NComment].
+Proof. vm_compute. split; reflexivity. Qed.
+
+(* ------------------------------------------------------------------------------------------- RA stack slots, whole runs *)
+(* Any script of tested slot creations (RGet) and work_reg_as_mem calls (RAsMem) over n work registers, any oracle: the invariant
+   holds at the end, NO register ever loses its home, the referenced registers are exactly the old ones plus those named by
+   RAsMem, one result per operation. *)
+Theorem C15_ra_run_spec :
+  forall (ok : nat -> bool) (ops : list raop) (n : nat) (s : rastack) (k : nat) (rs : list result) (s' : rastack) (k' : nat),
+    ra_inv s -> length (ra_home s) = n -> Forall (fun op => (raop_reg op < n)%nat) ops ->
+    ra_run ok ops s k = (rs, s', k') ->
+    ra_inv s' /\ length (ra_home s') = n /\ (forall w, has_home s w = true -> has_home s' w = true) /\
+    (forall w, In w (ra_refs s') <-> In w (ra_refs s) \/ In (RAsMem w) ops) /\ length rs = length ops.
+Proof. exact ra_run_spec. Qed.
+Print Assumptions C15_ra_run_spec.
+
+(* ... hence, whatever failed during the run: when the rewrite step (with the test of f186c27) reports success, every register
+   named by work_reg_as_mem owns a stack slot; when it reports an error, some referenced register really has none. *)
+Theorem C15_ra_run_rewrite_safe :
+  forall (ok : nat -> bool) (ops : list raop) (n : nat) (s : rastack) (k : nat) (rs : list result) (s' : rastack) (k' : nat),
+    ra_inv s -> length (ra_home s) = n -> Forall (fun op => (raop_reg op < n)%nat) ops ->
+    ra_run ok ops s k = (rs, s', k') ->
+    (ra_rewrite s' = Ok -> forall w, In (RAsMem w) ops -> has_home s' w = true /\ In w (ra_slots s')) /\
+    (ra_rewrite s' <> Ok -> exists w, (In w (ra_refs s) \/ In (RAsMem w) ops) /\ has_home s' w = false).
+Proof. exact ra_run_rewrite_safe. Qed.
+Print Assumptions C15_ra_run_rewrite_safe.
+
+Example C15_ra_run_nonvacuous :
+  (let '(rs, s, _) := ra_run (fun _ => true) [RAsMem 0; RGet 1; RAsMem 1]%nat (ras_init 2) 0%nat in (rs, ra_slots s, ra_rewrite s))
+    = ([Ok; Ok; Ok], [0; 1]%nat, Ok) /\
+  (let '(rs, s, _) := ra_run (fun k => (2 <=? k)%nat) [RAsMem 0; RGet 1; RAsMem 1]%nat (ras_init 2) 0%nat in (rs, ra_slots s, ra_rewrite s))
+    = ([Ok; Oom; Ok], [1]%nat, Oom) /\
+  Forall (fun op => (raop_reg op < 2)%nat) [RAsMem 0; RGet 1; RAsMem 1]%nat.
+Proof. vm_compute. split; [reflexivity|]. split; [reflexivity|]. repeat constructor. Qed.
+
+(* the executable validator applied to the states of REAL pass runs decides the invariant: it accepts exactly the states that
+   satisfy ra_inv (C15_ra_check_sound is the other direction), so a rejected dump is a real violation and every state reachable
+   by the model (C15_ra_run_spec) is accepted *)
+Theorem C15_ra_check_complete : forall s : rastack, ra_inv s -> ra_check s = true.
+Proof. exact ra_check_complete. Qed.
+Print Assumptions C15_ra_check_complete.
+
+Example C15_ra_check_rejects :
+  ra_check (mkras [1; 1]%nat 0 [false; true] []) = false /\ ra_check (mkras [1]%nat 0 [true; true] []) = false /\
+  ra_check (mkras [1]%nat 0 [false; true] [0]%nat) = true.
+Proof. vm_compute. auto. Qed.
+
+(* every state the model reaches from the initial one (n work registers, any script in range, any oracle) is accepted by that
+   validator: a rejected dump of a real pass run is a state outside the model *)
+Theorem C15_ra_reachable_checked :
+  forall (ok : nat -> bool) (ops : list raop) (n k : nat) (rs : list result) (s' : rastack) (k' : nat),
+    Forall (fun op => (raop_reg op < n)%nat) ops -> ra_run ok ops (ras_init n) k = (rs, s', k') -> ra_check s' = true.
+Proof. exact ra_reachable_checked. Qed.
+Print Assumptions C15_ra_reachable_checked.
+
+(* JitAllocator::shrink = C09's `shrink` x C15's block deletion: never asks for memory; both invariants kept; a non-zero new size
+   leaves views and block records untouched; new size 0 is a release (same allocator state; the views of at most one deleted
+   block go away). *)
+Theorem C15_jit_shrink_joint :
+  forall (okv okh : nat -> bool) (bm : list (Z * nat)) (c : JitModel.config) (st : JitModel.state) (s : vms) (id off ns : Z) (kv kh : nat)
+         (st' : JitModel.state) (r : JitModel.result) (s' : vms),
+    JitProofs.cfg_ok c -> JitProofs.ginv c st -> JitProofs.valid_ptr c st id off -> vms_acct s -> 0 <= ns ->
+    jit_shrink okv okh bm c st s id off ns kv kh = (st', r, s') ->
+    JitProofs.ginv c st' /\ vms_acct s' /\ (st', r) = JitModel.shrink c st id off ns /\
+    (ns <> 0 -> s' = s) /\
+    (ns = 0 -> st' = fst (JitModel.release c st id off)) /\
+    (vs_views s' = vs_views s /\ vs_heap s' = vs_heap s \/
+     exists h ids, ns = 0 /\ nth h (vs_handles s) None = Some ids /\
+                   vs_views s' = remove_ids ids (vs_views s) /\ vs_heap s' = pred (vs_heap s)).
+Proof. exact jit_shrink_joint. Qed.
+Print Assumptions C15_jit_shrink_joint.
+
+(* two blocks, trim, release the first (kept as the pool's empty block), release the second: it is deleted and its view goes *)
+Example C15_jit_shrink_nonvacuous :
+  let cfg := JitModel.mkConfig 64 1 65536 true false JitModel.fixed in
+  let t := fun _ : nat => true in
+  let bm := [(0, 0%nat); (1, 1%nat)] in
+  let '(st1, _, s1, kv, kh) := jit_alloc t t false cfg (JitModel.init_state cfg) vms_init 2000000 0%nat 0%nat in
+  let '(st2, _, s2, kv, kh) := jit_alloc t t false cfg st1 s1 2000000 kv kh in
+  let '(st3, r3, s3) := jit_shrink t t bm cfg st2 s2 0 64 64 kv kh in
+  let '(st4, r4, s4) := jit_shrink t t bm cfg st3 s3 0 64 0 kv kh in
+  let '(st5, r5, s5) := jit_shrink t t bm cfg st4 s4 1 64 0 kv kh in
+  (vs_views s2, r3, vs_views s3, r4, vs_views s4, r5, vs_views s5, vs_heap s5) =
+  ([0; 1]%nat, JitModel.RShrink JitModel.Ok 0 64, [0; 1]%nat, JitModel.RShrink JitModel.Ok 0 0, [0; 1]%nat,
+   JitModel.RShrink JitModel.Ok 1 0, [0]%nat, 1%nat).
+Proof. vm_compute. reflexivity. Qed.
+
+(* When no request fails (register count below the 32-bit size limit of the slot vector) every operation reports success and the
+   rewrite succeeds: errors of the home-slot machinery are never spurious.  Together with C15_ra_run_rewrite_safe: an error of the
+   rewrite means a request really failed AND a referenced register really has no slot. *)
+Theorem C15_ra_run_failure_free :
+  forall (ops : list raop) (n : nat) (s : rastack) (k : nat) (rs : list result) (s' : rastack) (k' : nat),
+    ra_inv s -> length (ra_home s) = n -> Z.of_nat n + 1 < max_items -> Forall (fun op => (raop_reg op < n)%nat) ops ->
+    (forall w, In w (ra_refs s) -> has_home s w = true) ->
+    ra_run all_ok ops s k = (rs, s', k') ->
+    Forall (fun r => r = Ok) rs /\ ra_rewrite s' = Ok.
+Proof. exact ra_run_failure_free. Qed.
+Print Assumptions C15_ra_run_failure_free.
+
+Example C15_ra_run_failure_free_nonvacuous :
+  ra_inv (ras_init 2) /\ length (ra_home (ras_init 2)) = 2%nat /\ Z.of_nat 2 + 1 < max_items /\
+  (forall w, In w (ra_refs (ras_init 2)) -> has_home (ras_init 2) w = true) /\
+  (* and with a failing oracle the conclusion is false for the same script: the hypothesis "no request fails" is needed *)
+  (let '(_, s, _) := ra_run (fun k => (2 <=? k)%nat) [RAsMem 0; RGet 1; RAsMem 1]%nat (ras_init 2) 0%nat in ra_rewrite s) = Oom.
+Proof. split; [apply ras_init_inv|]. split; [reflexivity|]. split; [reflexivity|]. split; [intros w []|vm_compute; reflexivity]. Qed.
+
+(* VirtMem views / JitAllocator blocks, whole scripts: when neither mmap nor malloc fails no operation reports kOutOfMemory. *)
+Theorem C15_vm_run_all_ok_never_oom :
+  forall (ops : list vmop) (s : vms) (kv kh : nat) (rs : list result) (s' : vms) (kv' kh' : nat),
+    vm_run all_ok all_ok ops s kv kh = (rs, s', kv', kh') -> ~ In Oom rs.
+Proof. exact vm_run_all_ok_never_oom. Qed.
+Print Assumptions C15_vm_run_all_ok_never_oom.
+
+Example C15_vm_run_never_oom_nonvacuous :
+  (let '(rs, _, _, _) := vm_run all_ok all_ok [VDual; VBlock true; VRel 0; VDel 1; VRel 0]%nat vms_init 0%nat 0%nat in rs) = [Ok; Ok; Ok; Ok; Invalid] /\
+  (let '(rs, _, _, _) := vm_run (fun k => negb (k =? 1)%nat) all_ok [VDual; VMap]%nat vms_init 0%nat 0%nat in rs) = [Oom; Ok].
+Proof. vm_compute. split; reflexivity. Qed.
+
+(* String, whole scripts: when no malloc fails every operation reports success and the final characters are the oracle-free
+   specification folded over ALL operations (the counterpart of C15_str_run_failed_ops_vanish: errors are never spurious). *)
+Theorem C15_str_run_all_ok :
+  forall (ops : list sop) (s : str) (k : nat) (rs : list result) (s' : str) (k' : nat),
+    Forall sop_wf ops -> str_inv s -> str_run all_ok ops s k = (rs, s', k') ->
+    Forall (fun r => r = Ok) rs /\ st_chars s' = fold_left (fun l op => str_spec op l) ops (st_chars s).
+Proof. exact str_run_all_ok. Qed.
+Print Assumptions C15_str_run_all_ok.
+
+Example C15_str_run_all_ok_nonvacuous :
+  (let '(rs, s', _) := str_run all_ok [SAppendChars 40; SAssign [1; 2]; SAppend [3]] str_empty 0%nat in (rs, st_chars s')) = ([Ok; Ok; Ok], [1; 2; 3]) /\
+  Forall sop_wf [SAppendChars 40; SAssign [1; 2]; SAppend [3]] /\ str_inv str_empty.
+Proof.
+  split; [vm_compute; reflexivity|]. split.
+  - constructor; [cbn; lia|]. constructor; [exact I|]. constructor; [exact I|constructor].
+  - unfold str_inv, slen, str_empty, sso_capacity. cbn. split; intros; lia.
+Qed.
+
+(* ArenaHash with the real prime table, whole scripts: when no request fails no insert reports kOutOfMemory (the counterpart of
+   C15_hash_run_keys; a removal of an absent key still answers "invalid"). *)
+Theorem C15_hash_run_all_ok_never_oom :
+  forall (ops : list hop) (h : hash) (k : nat) (rs : list result) (h' : hash) (k' : nat),
+    hash_run all_ok hash_primes ops h k = (rs, h', k') -> ~ In Oom rs.
+Proof. exact (hash_run_all_ok_never_oom hash_primes). Qed.
+Print Assumptions C15_hash_run_all_ok_never_oom.
+
+Example C15_hash_run_never_oom_nonvacuous :
+  (let '(rs, h', _) := hash_run all_ok hash_primes [HInsert 5; HInsert 6; HRemove 9; HRemove 5] hash_empty 0%nat in (rs, hash_keys h')) = ([Ok; Ok; Invalid; Ok], [6]).
+Proof. vm_compute. reflexivity. Qed.
